@@ -64,3 +64,14 @@ Example ex_obs_eq_strict :
   let s := final (exec (Scope CStrFmt (VD [(0%Z, ABool true)]) Skip) init_state) in
   s <> init_state /\ obs_eq s init_state.
 Proof. split; [vm_compute; discriminate | apply restore]. Qed.
+
+(* C17_no_interference: entering as_sealed inside three other scopes leaves the other 16 getters alone *)
+Example ex_no_interference :
+  let s := final (exec Skip init_state) in
+  exists s1 sv, cm_enter (CFlag i_as_sealed) v_true s = Some (s1, sv) /\ GFlag i_allow_partial <> getter_of (CFlag i_as_sealed)
+                /\ observe (GFlag i_allow_partial) s1 = observe (GFlag i_allow_partial) s
+                /\ observe (GFlag i_as_sealed) s1 <> observe (GFlag i_as_sealed) s.
+Proof.
+  cbv zeta. destruct (cm_enter (CFlag i_as_sealed) v_true (final (exec Skip init_state))) as [[s1 sv]|] eqn:E; [|vm_compute in E; discriminate].
+  exists s1, sv. split; [reflexivity|]. split; [vm_compute; discriminate|]. vm_compute in E. inversion E; subst. vm_compute. split; [reflexivity | discriminate].
+Qed.
